@@ -114,7 +114,8 @@ def instance(pep, held=(), tol=1e-6, solver_G=None, solver_F=None):
     if nP:
         Gp = psd_factor(Gv)
         err = float(np.abs(P.T @ P - Gp).max())
-        if err > 10 * t:
+        # factorising the PSD projection is pure linear algebra: its accuracy does not depend on the solver's
+        if err > 1e-9 * scale:
             probs.append(("instance:gram", "inner products of the evaluated leaf points differ from the PSD projection "
                                            "of the Gram matrix by %.2e" % err))
     Gpts = P.T @ P if nP else np.zeros((0, 0))
